@@ -265,10 +265,10 @@ def _post_random(rules_dict, root, result):
 
 def _post_smallish(rules_dict, root, result):
     COUNTS["smallish_random_proof_tree"] += 1
+    sizes, _STATE["sizes"] = _STATE["sizes"], None
     err = tree_error(result, rules_dict, root)
     if err:
         return _note("smallish-" + err[0], f"{_show(rules_dict)} root {root}: {err[1]}")
-    sizes, _STATE["sizes"] = _STATE["sizes"], None
     if not sizes or len(result) != min(sizes):
         return _note("smallish-not-min-of-draws", f"returned size {len(result)}, sizes drawn {sizes}")
     return True
@@ -751,21 +751,22 @@ def run(tier, seed):
                  "labels, arity 0..2, single-child rules one-way and two-way, EVERY insertion order, every start label, "
                  "recursive and iterative pack; SEEDED 19200 histories of 2..5 rules over 4 labels, arity 0..3, both packs")
     else:
-        tasks += _exh("A-exh", 3, 3, 4, 512, seed) + _exh("B-exh", 3, 2, 4, 512, seed) + _exh("A-exh", 4, 3, 3, 512, seed)
-        tasks += _exh("B-exh", 3, 2, 3, 64, seed) + _exh("A-exh", 3, 3, 3, 64, seed)
+        tasks += _exh("A-exh", 3, 2, 5, 512, seed) + _exh("B-exh", 3, 1, 4, 256, seed)
+        tasks += _exh("A-exh", 3, 2, 4, 128, seed) + _exh("A-exh", 4, 2, 3, 128, seed)
+        tasks += _exh("B-exh", 3, 2, 3, 96, seed) + _exh("A-exh", 3, 3, 3, 96, seed)
         for k in (1, 2):
-            tasks += _exh("B-exh", 3, 2, k, 4, seed) + _exh("A-exh", 3, 3, k, 4, seed) + _exh("A-exh", 4, 3, k, 4, seed)
+            tasks += _exh("B-exh", 3, 2, k, 4, seed) + _exh("A-exh", 3, 3, k, 4, seed) + _exh("A-exh", 4, 2, k, 4, seed)
         for i in range(64):
-            tasks.append(("A-rnd", 4, 3, 6, 4000, seed * 1000 + i))
+            tasks.append(("A-rnd", 4, 3, 6, 2000, seed * 1000 + i))
         for i in range(64):
             tasks.append(("B-rnd", 4, 3, 6, 5000, seed * 1000 + 100 + i))
-        bound = ("Part A (tree_searcher on integer rule dictionaries, every root): EXHAUSTIVE sets of <=4 rules over 3 labels "
-                 "and of <=3 rules over 4 labels, arity 0..3 (repeated children allowed); SEEDED 256000 dictionaries of 2..6 "
-                 "rules over 4 labels; random_proof_tree under every choice/shuffle outcome (odometer, capped at 48 runs per "
+        bound = ("Part A (tree_searcher on integer rule dictionaries, every root): EXHAUSTIVE sets of <=3 rules over 3 labels with "
+                 "arity 0..3, of 4..5 rules over 3 labels and of <=3 rules over 4 labels with arity 0..2 (repeated children "
+                 "allowed); SEEDED 128000 dictionaries of 2..6 rules over 4 labels, arity 0..3; random_proof_tree under every choice/shuffle outcome (odometer, capped at 48 runs per "
                  "dictionary/root), smallish under seeded RNG + fake clock, dfs generator with maximum 0..min+2. "
-                 "Part B (RuleDB with stub rules, has_specification after every add): EXHAUSTIVE sets of <=4 rules over 3 "
-                 "labels, arity 0..2, single-child rules one-way and two-way, EVERY insertion order, every start label, "
-                 "recursive and iterative pack; SEEDED 320000 histories of 2..6 rules over 4 labels, arity 0..3, both packs")
+                 "Part B (RuleDB with stub rules, has_specification after every add): EXHAUSTIVE sets of <=3 rules over 3 "
+                 "labels with arity 0..2 and of 4 rules with arity 0..1, single-child rules one-way and two-way, EVERY "
+                 "insertion order, every start label, recursive and iterative pack; SEEDED 320000 histories of 2..6 rules over 4 labels, arity 0..3, both packs")
     ctx = multiprocessing.get_context("fork")
     with ctx.Pool(NPROC) as pool:
         results = pool.map(_worker, tasks, chunksize=1)
